@@ -19,6 +19,17 @@ R5.4 pixelation correction is subtracted from the deformation before any
      scaling, from the unscaled abscissa; the dispatch of
      get_pixelation_delta is sign-symmetric for circ/deform; the pixel-size
      scale has the dimension of the abscissa.
+R5.6 no state between calls: no function on the call closure of
+     get_emodulus inside dclab/features/emodulus writes a module-level
+     container / global; a function whose result depends on module-level
+     state that the package mutates (EXTERNAL_LUTS via register_lut),
+     directly or through its callees, carries no memoising decorator.
+R5.7 per-medium material constants of the viscosity models (the literals
+     that differ between the `medium == ..` branches of one model) are
+     strictly monotone in the methyl-cellulose concentration, hence pairwise
+     distinct; a literal that occurs twice in one branch occurs twice in
+     every branch (same quantity).  This is a consistency condition on the
+     parameter tables, not a comparison with the cited publications.
 R5.5 interpolation: griddata(method='linear') without fill_value/rescale on
      (column 0, column 1) -> column 2; LUT column and data are normalised by
      the same number, the column maximum taken after scaling; extrapolation
@@ -38,8 +49,13 @@ from ..core import (AnalysisError, call_name, const_str, find_calls, kwarg,
 ASSUMPTIONS = [
     "NOT decided: numerical agreement with an interpolation oracle; NaN "
     "exactly outside the LUT support (scipy.interpolate.griddata is "
-    "trusted); the viscosity models of viscosity.py; the content of the "
-    "shipped LUT files.",
+    "trusted); the numerical values of the viscosity models of "
+    "viscosity.py (R5.7 only decides that constants which depend on the MC "
+    "concentration are strictly monotone in it – two concentrations cannot "
+    "share a concentration-dependent rheological constant, consistency K "
+    "and flow index n vary monotonically with the polymer concentration, as "
+    "both models in the module show for the media they share); the content "
+    "of the shipped LUT files.",
     "numpy semantics assumed: np.array(x) copies unless copy=False; "
     "np.loadtxt, griddata and arithmetic return new arrays; `x[:, k]` is a "
     "view of x.",
@@ -1412,6 +1428,378 @@ def r55(ctx, repo, m, x4):
            nontrivial=False)
 
 
+# ----------------------------------------------------------------------
+# R5.6 – nothing on the call closure of get_emodulus keeps state
+
+PKG = "dclab/features/emodulus/"
+VISC = "dclab/features/emodulus/viscosity.py"
+MUTATORS = {"update", "append", "pop", "clear", "setdefault", "add",
+            "extend", "remove", "insert", "popitem", "discard",
+            "appendleft"}
+CONTAINER_CALLS = {"dict", "list", "set", "OrderedDict", "defaultdict",
+                   "collections.OrderedDict", "collections.defaultdict",
+                   "deque", "collections.deque"}
+
+
+def module_containers(repo, rel):
+    """module-level names bound to a mutable container"""
+    out = set()
+    for st in repo.tree(rel).body:
+        tg, v = [], None
+        if isinstance(st, ast.Assign):
+            tg, v = st.targets, st.value
+        elif isinstance(st, ast.AnnAssign) and st.value is not None:
+            tg, v = [st.target], st.value
+        if v is None:
+            continue
+        if isinstance(v, (ast.Dict, ast.List, ast.Set, ast.DictComp,
+                          ast.ListComp, ast.SetComp)) or (
+                isinstance(v, ast.Call) and call_name(v) in CONTAINER_CALLS):
+            out |= {t.id for t in tg if isinstance(t, ast.Name)}
+    return out
+
+
+def state_writes(func, containers):
+    """statements of func that modify a module-level container or re-bind a
+    global"""
+    out = []
+    local = {a.arg for a in func.args.args + func.args.kwonlyargs}
+    for n in walk(func):
+        if isinstance(n, ast.Assign):
+            for t in n.targets:
+                if isinstance(t, ast.Name):
+                    local.add(t.id)
+    glob = set()
+    for n in walk(func):
+        if isinstance(n, (ast.Global, ast.Nonlocal)):
+            glob |= set(n.names)
+    cont = (containers - (local - glob))
+    for n in walk(func):
+        tg = []
+        if isinstance(n, ast.Assign):
+            tg = n.targets
+        elif isinstance(n, (ast.AugAssign, ast.AnnAssign)):
+            tg = [n.target]
+        elif isinstance(n, ast.Delete):
+            tg = n.targets
+        for t in tg:
+            if isinstance(t, ast.Name) and t.id in glob:
+                out.append(n)
+            elif isinstance(t, (ast.Subscript, ast.Attribute)) \
+                    and base_name(t) in cont:
+                out.append(n)
+        if isinstance(n, ast.Call) and isinstance(n.func, ast.Attribute) \
+                and n.func.attr in MUTATORS and isinstance(
+                    n.func.value, ast.Name) and n.func.value.id in cont:
+            out.append(n)
+    return out
+
+
+def r56(ctx, repo):
+    files = [r for r in repo.files(PKG)]
+    fresh = Fresh(repo)
+    funcs = {}
+    for rel in files:
+        for q, f in repo.all_functions(rel):
+            if "." not in q:
+                funcs[(rel, q)] = f
+    containers = {rel: module_containers(repo, rel) for rel in files}
+    # containers that some function of the package modifies = mutable state
+    mutated = {rel: set() for rel in files}
+    for (rel, q), f in funcs.items():
+        for w in state_writes(f, containers[rel]):
+            tg = []
+            if isinstance(w, ast.Assign):
+                tg = w.targets
+            elif isinstance(w, (ast.AugAssign, ast.AnnAssign)):
+                tg = [w.target]
+            elif isinstance(w, ast.Delete):
+                tg = w.targets
+            elif isinstance(w, ast.Call):
+                tg = [w.func.value]
+            for t in tg:
+                b = base_name(t)
+                if b in containers[rel]:
+                    mutated[rel].add(b)
+    # call graph inside the package
+    callees = {}
+    for (rel, q), f in funcs.items():
+        cs = set()
+        for c in walk(f):
+            if isinstance(c, ast.Call):
+                n = call_name(c)
+                if n and "." not in n:
+                    r = fresh.resolve(rel, n)
+                    if r is not None and (r[0], r[1].name) in funcs:
+                        cs.add((r[0], r[1].name))
+        callees[(rel, q)] = cs
+    root = (EM, "get_emodulus")
+    if root not in funcs:
+        raise AnalysisError("get_emodulus vanished")
+    reach, stack = set(), [root]
+    while stack:
+        k = stack.pop()
+        if k in reach:
+            continue
+        reach.add(k)
+        stack += list(callees[k])
+    if len(reach) < 10:
+        raise AnalysisError(f"call closure of get_emodulus has only "
+                            f"{len(reach)} functions")
+    ctx.stat("R5.6 functions on the call closure", len(reach))
+    # which functions read mutable module state (directly or through callees)
+    reads = {}
+    for k in reach:
+        rel, q = k
+        f = funcs[k]
+        local = {a.arg for a in f.args.args}
+        reads[k] = sorted({n.id for n in walk(f) if isinstance(n, ast.Name)
+                           and isinstance(n.ctx, ast.Load)
+                           and n.id in mutated[rel] and n.id not in local})
+    dep = {k: list(v) for k, v in reads.items()}
+    changed = True
+    while changed:
+        changed = False
+        for k in reach:
+            for c in callees[k]:
+                for x in dep.get(c, []):
+                    tag = x if "(" in x else f"{x} (via {c[1]})"
+                    base = x.split(" ")[0]
+                    if not any(y.split(" ")[0] == base for y in dep[k]):
+                        dep[k].append(tag)
+                        changed = True
+    for k in sorted(reach):
+        rel, q = k
+        f = funcs[k]
+        w = state_writes(f, containers[rel])
+        ctx.ob("R5.6", not w,
+               f"{q} writes no module-level state" if not w else
+               f"{q} stores into module-level state "
+               f"(`{short(w[0], 40)}`): the result of a later call depends "
+               "on earlier calls", node=w[0] if w else f,
+               key=f"{rel}::{q}::writes no module state")
+        if dep[k]:
+            memo = [d for d in f.decorator_list
+                    if any(c in txt(d) for c in CACHING)]
+            ctx.ob("R5.6", not memo,
+                   f"{q} depends on the mutable module state "
+                   f"{', '.join(dep[k])} and is not memoised" if not memo
+                   else f"{q} is wrapped by `{txt(memo[0])}` although its "
+                   f"result depends on the mutable module state "
+                   f"{', '.join(dep[k])}: a table registered, replaced or "
+                   "removed later is not seen (result depends on earlier "
+                   "calls)", node=memo[0] if memo else f,
+                   key=f"{rel}::{q}::not memoised")
+
+
+# ----------------------------------------------------------------------
+# R5.7 – per-medium parameter tables of the viscosity models
+
+def _number(e):
+    if isinstance(e, ast.Constant) and isinstance(
+            e.value, (int, float)) and not isinstance(e.value, bool):
+        return e.value
+    if isinstance(e, ast.UnaryOp) and isinstance(
+            e.op, (ast.USub, ast.UAdd)) and _number(e.operand) is not None:
+        v = _number(e.operand)
+        return -v if isinstance(e.op, ast.USub) else v
+    return None
+
+
+def _slots(nodes, what):
+    """parallel walk of structurally equal trees: [(path text, [values])]
+    for every numeric literal position"""
+    out = []
+
+    def rec(ns, path):
+        nums = [_number(n) for n in ns]
+        if all(v is not None for v in nums):
+            out.append((path, nums, ns[0]))
+            return
+        if len({type(n) for n in ns}) != 1:
+            raise AnalysisError(f"{what}: the media branches differ in "
+                                f"structure at {path or 'the top'}")
+        for fld in ns[0]._fields:
+            vals = [getattr(n, fld, None) for n in ns]
+            if isinstance(vals[0], list):
+                if len({len(v) for v in vals}) != 1:
+                    raise AnalysisError(f"{what}: the media branches "
+                                        f"differ in length at {path}.{fld}")
+                for i in range(len(vals[0])):
+                    items = [v[i] for v in vals]
+                    if isinstance(items[0], ast.AST):
+                        rec(items, f"{path}.{fld}[{i}]")
+            elif isinstance(vals[0], ast.AST):
+                if isinstance(vals[0], (ast.Load, ast.Store, ast.operator,
+                                        ast.unaryop, ast.cmpop)):
+                    if len({type(v) for v in vals}) != 1:
+                        raise AnalysisError(f"{what}: operators differ at "
+                                            f"{path}.{fld}")
+                    continue
+                rec(vals, f"{path}.{fld}")
+            else:
+                if fld in ("lineno", "col_offset", "end_lineno",
+                           "end_col_offset", "type_comment", "kind"):
+                    continue
+                if len(set(map(repr, vals))) != 1:
+                    raise AnalysisError(f"{what}: the media branches "
+                                        f"differ at {path}.{fld}: {vals}")
+    rec(nodes, "")
+    return out
+
+
+def _by_name(stmts, what):
+    """{name: value} of a branch made of plain assignments (tuple
+    assignments are split)"""
+    out = {}
+    for st in stmts:
+        if isinstance(st, ast.Pass):
+            continue
+        if not (isinstance(st, ast.Assign) and len(st.targets) == 1):
+            raise AnalysisError(f"{what}: media branch statement "
+                                f"`{short(st, 40)}` not understood")
+        t, v = st.targets[0], st.value
+        if isinstance(t, ast.Name):
+            pairs = [(t.id, v)]
+        elif isinstance(t, ast.Tuple) and isinstance(v, ast.Tuple) and len(
+                t.elts) == len(v.elts) and all(
+                isinstance(x, ast.Name) for x in t.elts):
+            pairs = [(x.id, y) for x, y in zip(t.elts, v.elts)]
+        else:
+            raise AnalysisError(f"{what}: media branch statement "
+                                f"`{short(st, 40)}` not understood")
+        for k, val in pairs:
+            if k in out:
+                raise AnalysisError(f"{what}: `{k}` assigned twice in a "
+                                    "media branch")
+            out[k] = val
+    if not out:
+        raise AnalysisError(f"{what}: empty media branch")
+    return out
+
+
+def r57(ctx, repo):
+    same = repo.module_assign(VISC, "SAME_MEDIA")
+    if not isinstance(same, ast.Dict):
+        raise AnalysisError("viscosity.SAME_MEDIA is not a dict literal")
+    conc = {}
+    for k in same.keys:
+        mm = re.fullmatch(r"(\d+(?:\.\d+)?)% MC-PBS", const_str(k) or "")
+        if mm:
+            conc[const_str(k)] = float(mm.group(1))
+    if len(conc) < 2:
+        raise AnalysisError("viscosity.SAME_MEDIA: MC-PBS media not found")
+    n_models = 0
+    for q, f in repo.all_functions(VISC):
+        if "." in q or "medium" not in [a.arg for a in f.args.args]:
+            continue
+        if not any(isinstance(c, ast.Compare) and txt(c.left) == "medium"
+                   or (isinstance(c, ast.Compare) and txt(
+                       c.comparators[0]) == "medium")
+                   for s in f.body if isinstance(s, ast.If)
+                   for c in ast.walk(s.test)):
+            continue
+        # top-level chain that dispatches on the medium
+        chain = [s for s in f.body if isinstance(s, ast.If)
+                 and names_in(s.test) == {"medium"}]
+        if not chain:
+            continue
+        shadow = ast.FunctionDef(name=q, args=f.args, body=chain,
+                                 decorator_list=[], lineno=f.lineno)
+        branches, _rest = dispatch_branches(shadow, q)
+        bodies = {}
+        for med in sorted(conc, key=conc.get):
+            hit = first_branch(branches, {"medium": med}, q)
+            if hit is None or any(isinstance(x, ast.Raise)
+                                  for x in hit[1]):
+                continue
+            if any(isinstance(x, ast.Call) and (call_name(x) or ""
+                                                ).startswith("get_viscosity")
+                   for st in hit[1] for x in ast.walk(st)):
+                bodies = {}
+                break       # a dispatcher over models, not a model
+            bodies[med] = _by_name(hit[1], q)
+        if len(bodies) < 2:
+            continue
+        if len({id(b) for b in bodies.values()}) < len(bodies) or len(
+                {id(next(iter(b.values()))) for b in bodies.values()}) < len(
+                bodies):
+            continue        # media share one branch (no per-medium table)
+        n_models += 1
+        meds = list(bodies)
+        names = sorted(bodies[meds[0]])
+        if any(sorted(b) != names for b in bodies.values()):
+            raise AnalysisError(f"{q}: the media branches assign different "
+                                "names")
+        slots, common = [], []
+        for nm in names:
+            for p_, v_, n_ in _slots([bodies[m_][nm] for m_ in meds], q):
+                (slots if len(set(v_)) > 1 else common).append(
+                    (f"{nm}{p_}", v_, n_))
+        if len(slots) < 2:
+            raise AnalysisError(f"{q}: fewer than two per-medium constants "
+                                "found")
+        for path, vals, node in slots:
+            inc = all(a < b for a, b in zip(vals, vals[1:]))
+            dec = all(a > b for a, b in zip(vals, vals[1:]))
+            ok = inc or dec
+            name = re.split(r"[.\[]", path)[0]
+            k_ = [i for i, (p_, _, _) in enumerate(slots) if p_ == path][0]
+            table = ", ".join(f"{m_}: {v}" for m_, v in zip(meds, vals))
+            dup = [(meds[i], meds[j]) for i in range(len(vals))
+                   for j in range(i + 1, len(vals)) if vals[i] == vals[j]]
+            ctx.ob("R5.7", ok,
+                   f"{q}: the per-medium constant #{k_} of `{name}` is "
+                   f"strictly monotone in the MC concentration ({table})"
+                   if ok else
+                   f"{q}: the per-medium constant #{k_} of `{name}` is "
+                   + (f"identical for {dup[0][0]} and {dup[0][1]}" if dup
+                      else "not monotone in the MC concentration")
+                   + f" ({table}) – a material constant that depends on "
+                   "the concentration cannot coincide for two "
+                   "concentrations / reverse its trend (copy-paste between "
+                   "branches?)", node=node,
+                   key=f"{VISC}::{q}::medium constant {k_} of {name}")
+        # a literal used twice in one medium's formula is the same quantity
+        # in every medium's formula
+        for i in range(len(slots)):
+            for j in range(i + 1, len(slots)):
+                a, b = slots[i][1], slots[j][1]
+                eq = [x == y for x, y in zip(a, b)]
+                if any(eq):
+                    ctx.ob("R5.7", all(eq),
+                           f"{q}: constants #{i} and #{j} denote the same "
+                           "quantity in every medium branch" if all(eq) else
+                           f"{q}: constants #{i} and #{j} coincide for "
+                           f"{meds[eq.index(True)]} ({a[eq.index(True)]}) "
+                           f"but differ for {meds[eq.index(False)]} "
+                           f"({a[eq.index(False)]} vs "
+                           f"{b[eq.index(False)]}): one occurrence was not "
+                           "updated", node=slots[j][2],
+                           key=f"{VISC}::{q}::constants {i} and {j} "
+                           "consistent")
+        # ... also when the other occurrence no longer differs between
+        # the media (it was left at another medium's value)
+        for i, (pi, a, _) in enumerate(slots):
+            for pj, b, nj in common:
+                if float(b[0]).is_integer():
+                    continue
+                eq = [x == y for x, y in zip(a, b)]
+                if any(eq):
+                    ctx.ob("R5.7", False,
+                           f"{q}: the literal {b[0]} of `{pj.split('.')[0]}`"
+                           f" equals the per-medium constant #{i} for "
+                           f"{meds[eq.index(True)]} but is used for every "
+                           "medium: one occurrence of a per-medium constant "
+                           "was not updated", node=nj,
+                           key=f"{VISC}::{q}::constant {i} vs shared literal "
+                           f"{b[0]}")
+    if n_models < 2:
+        raise AnalysisError(f"only {n_models} viscosity model(s) with a "
+                            "per-medium table found")
+    ctx.stat("R5.7 models with per-medium tables", n_models)
+
+
 def run(ctx):
     repo = ctx.repo
     ctx.rule("R5.1", "every in-place operation of get_emodulus acts on a "
@@ -1428,8 +1816,18 @@ def run(ctx):
     ctx.rule("R5.5", "griddata linear, no fill_value/rescale, consistent "
              "normalisation by the scaled column maximum, extrapolation "
              "off by default", minimum=16)
+    ctx.rule("R5.6", "no function on the call closure of get_emodulus "
+             "inside the package writes module-level state; those that read "
+             "mutable module state (EXTERNAL_LUTS) are not memoised",
+             minimum=23)
+    ctx.rule("R5.7", "per-medium material constants of each viscosity model "
+             "are strictly monotone in the MC concentration (hence pairwise "
+             "distinct) and a constant used twice denotes the same quantity "
+             "in every branch", minimum=4)
     m = Model(repo)
     r51(ctx, repo, m)
+    r56(ctx, repo)
+    r57(ctx, repo)
     r52(ctx, repo)
     x4 = r53(ctx, repo, m)
     r54(ctx, repo, m)
@@ -1459,6 +1857,34 @@ MUTANTS = [
     ("LUT loading cached", LOAD,
      ("def load_mtext(path):", "@functools.lru_cache()\ndef load_mtext(path):"
       ), "R5.1"),
+    ("LUT path resolution memoised (seeded C05_6)", LOAD,
+     ("def get_lut_path(path_or_id):",
+      "@functools.lru_cache(maxsize=32)\ndef get_lut_path(path_or_id):"),
+     "R5.6"),
+    ("LUT path resolution memoised in a module-level dict", LOAD,
+     [("EXTERNAL_LUTS = {}\n", "EXTERNAL_LUTS = {}\n_LUT_PATHS = {}\n"),
+      ("    internal_dict = get_internal_lut_names_dict()\n"
+       "    if path_or_id == \"FEM-2Daxis\":",
+       "    if path_or_id in _LUT_PATHS:\n"
+       "        return _LUT_PATHS[path_or_id]\n"
+       "    internal_dict = get_internal_lut_names_dict()\n"
+       "    if path_or_id == \"FEM-2Daxis\":"),
+      ("    return lut_path\n",
+       "    _LUT_PATHS[path_or_id] = lut_path\n    return lut_path\n")],
+     "R5.6"),
+    ("viscosity dispatcher remembers the last result", VISC,
+     [("KNOWN_MEDIA = sorted(ALIAS_MEDIA.keys())\n",
+       "KNOWN_MEDIA = sorted(ALIAS_MEDIA.keys())\n_LAST = {}\n"),
+      ("        raise NotImplementedError(f\"Unknown medium '{medium}'!\")\n"
+       "    return eta\n",
+       "        raise NotImplementedError(f\"Unknown medium '{medium}'!\")\n"
+       "    _LAST[medium] = eta\n    return eta\n")], "R5.6"),
+    ("flow-index offset copied between media (seeded C05_5)", VISC,
+     ("        beta = -0.1455\n", "        beta = -0.0744\n"), "R5.7"),
+    ("consistency constant copied between media", VISC,
+     ("        a = 5.70e-6\n", "        a = 2.30e-6\n"), "R5.7"),
+    ("herold: exponent not updated for the second medium", VISC,
+     ("**(0.634 - 1)", "**(0.677 - 1)"), "R5.7"),
     ("scale functions invert the inplace flag", SCALE,
      ("    copy = not inplace\n    if issubclass(area_um.dtype.type",
       "    copy = inplace\n    if issubclass(area_um.dtype.type"), "R5.1"),
@@ -1587,6 +2013,42 @@ MUTANTS = [
 ]
 
 TWINS = [
+    ("internal LUT listing cached without bound", LOAD,
+     ("@functools.lru_cache()\ndef get_internal_lut_names_dict():",
+      "@functools.lru_cache(maxsize=None)\n"
+      "def get_internal_lut_names_dict():")),
+    ("media branches reordered", VISC,
+     ('    if medium == "0.49% MC-PBS":\n'
+      '        a = 2.30e-6  # previously 2.23e-6, changed in Reichel2023 '
+      'rev 2\n        beta = -0.0056\n'
+      '    elif medium == "0.59% MC-PBS":\n        a = 5.70e-6\n'
+      '        beta = -0.0744\n    elif medium == "0.83% MC-PBS":\n'
+      '        a = 16.52e-6\n        beta = -0.1455\n',
+      '    if medium == "0.83% MC-PBS":\n        a = 16.52e-6\n'
+      '        beta = -0.1455\n    elif medium == "0.59% MC-PBS":\n'
+      '        a = 5.70e-6\n        beta = -0.0744\n'
+      '    elif "0.49% MC-PBS" == medium:\n        a, beta = 2.30e-6, '
+      '-0.0056\n')),
+    ("refactoring: herold parameters named per medium", VISC,
+     ('        temp_corr = (temperature / 23.2)**-0.866\n'
+      '        term2 = 0.6771 / 0.5928 + 0.2121 / (0.5928 * 0.677)\n'
+      '        eta = 0.179 * (term1 * term2)**(0.677 - 1) * temp_corr * 1e3\n'
+      '    elif medium == "0.59% MC-PBS":\n'
+      '        temp_corr = (temperature / 23.6)**-0.866\n'
+      '        term2 = 0.6771 / 0.5928 + 0.2121 / (0.5928 * 0.634)\n'
+      '        eta = 0.360 * (term1 * term2)**(0.634 - 1) * temp_corr * 1e3\n'
+      '    else:\n        raise NotImplementedError(\n'
+      '            f"Medium {medium} not supported for model `herold-2017`!")'
+      '\n',
+      '        consistency, flow_index, temp_ref = 0.179, 0.677, 23.2\n'
+      '    elif medium == "0.59% MC-PBS":\n'
+      '        consistency, flow_index, temp_ref = 0.360, 0.634, 23.6\n'
+      '    else:\n        raise NotImplementedError(\n'
+      '            f"Medium {medium} not supported for model `herold-2017`!")'
+      '\n    temp_corr = (temperature / temp_ref)**-0.866\n'
+      '    term2 = 0.6771 / 0.5928 + 0.2121 / (0.5928 * flow_index)\n'
+      '    eta = consistency * (term1 * term2)**(flow_index - 1) * temp_corr'
+      ' * 1e3\n')),
     ("area law written with explicit squares", SCALE,
      ("area_um_corr *= (channel_width_out / channel_width_in)**2",
       "area_um_corr *= channel_width_out * channel_width_out / "
